@@ -87,6 +87,34 @@ class C11:
                 rows[tags[0]] = r
             elif not tags:
                 fallthrough.append(r)
+        # the dispatch written with nested / combined tests (`if type in (A, B): f = fa if type == A else fb`): which return is taken
+        # for each of the nine geometry types, by evaluating the type tests of the path conditions
+        NINE = ("TimeStamp", "TimeInterval", "Point", "LineString", "Polygon", "BoundingBox", "MultiPoint", "MultiLineString", "MultiPolygon")
+        tagt = ("attr", g, "type")
+        by_type, decided = {}, True
+        rets_ = list(s.returns)
+        for T in NINE:
+            alive = []
+            for r in rets_:
+                cj = [c for c in conjuncts(r.live) if any(x == tagt for x in walk(c))]
+                vals = [peval(c, {tagt: T}) for c in cj]
+                if any(v[0] != "const" for v in vals):
+                    decided = False
+                    break
+                if all(v[1] for v in vals):
+                    alive.append(r)
+            if not decided or len(alive) != 1:
+                decided = False
+                break
+            by_type[T] = alive[0]
+        if decided:
+            closed = ("TimeStamp", "TimeInterval", "BoundingBox")
+            rows = {T: by_type[T] for T in want}
+            others = {id(by_type[T]): by_type[T] for T in NINE if T not in closed}
+            fallthrough = list(others.values())
+            for T in NINE:
+                if T not in closed and any(by_type[T] is by_type[W] for W in closed):
+                    rows[T] = by_type[T]  # a type without a closed form routed to one: reported below
         for tag, (fn, bufs) in want.items():
             r = rows.get(tag)
             if r is None or not (r.term[0] == "call" and r.term[1] == ("global", f"{OPS}:{fn}", "func")):
@@ -159,6 +187,27 @@ class C11:
                 continue
             labels = ["start", "end"] if len(want) == 2 else names
             for lab, got, w in zip(labels, coords[1], want):
+                if canon(got) != canon(w) and not scalar and any(x[0] == "star" for x in walk(got)):
+                    # a helper applied to the unpacked coordinates (`_widen(*geometry.coordinates, b)`): with the coordinates written
+                    # out as the display of their (validated) number of items the helper can be read
+                    from sa.sym import fold_sub
+                    from .common import expand_new_helpers
+                    disp = ("tuple", tuple(("sub", c, ("const", i)) for i in range(len(want))))
+                    def splice(t):
+                        if not isinstance(t, tuple) or not t:
+                            return t
+                        t = tuple(splice(x) if isinstance(x, tuple) else x for x in t)
+                        if isinstance(t[0], str) and t[0] == "call" and any(a[0] == "star" and a[1][0] in ("tuple", "list") for a in t[2]):
+                            args = []
+                            for a in t[2]:
+                                args += list(a[1][1]) if a[0] == "star" and a[1][0] in ("tuple", "list") else [a]
+                            return ("call", t[1], tuple(args), t[3])
+                        return t
+
+                    got2 = expand_new_helpers(ctx, fold_sub(splice(subst(got, {("star", c): ("star", disp)}))))
+                    got2 = fold_sub(subst(got2, {("sub", disp, ("const", i)): ("sub", c, ("const", i)) for i in range(len(want))}))
+                    if not any(x[0] == "star" for x in walk(got2)):
+                        got = got2
                 if canon(got) == canon(w):
                     ctx.ok("R11.2", site, f"{lab} = {show(w)[:60]}")
                 else:
@@ -195,6 +244,8 @@ class C11:
         if factor is not None and factor[0] == "call" and factor[1] in (("ext", "numpy.array"), ("ext", "numpy.asarray")) and len(factor[2]) == 1 \
                 and not factor[3] and factor[2][0][0] in ("list", "tuple"):
             factor = ("list", factor[2][0][1])  # the two factors converted to an array once instead of by every multiplication
+        if factor is not None and factor[0] == "tuple" and len(factor[1]) == 2:
+            factor = ("list", factor[1])  # a pair of factors broadcasts over the (n, 2) coordinates as a tuple just as it does as a list
         order = tr[0].idx < bu[0].idx < tr[1].idx < cl[0].idx
         chain = tr[0].term[2][0] == g and bu[0].term[2][0] == tr[0].term and tr[1].term[2][0] == bu[0].term and cl[0].term[2][0] == tr[1].term
         if ok and order and chain:
